@@ -6,11 +6,12 @@
   OBLIGATIONS: C01_roundtrip C01_compose C01_two_grids_roundtrip C01_two_grids_compose
     C01_two_grids_same C01_vectors_linear_part C01_vectors_closed_form C01_two_grids_vectors
     C01_anchor_origin C01_anchor_center C01_anchor_corners C01_anchor_cube
-    C01_coords_count C01_coords_values C01_coords_range C01_rounding_bound
+    C01_coords_count C01_coords_values C01_coords_range C01_sample_identity C01_rounding_bound
 -/
 import Deepali.Proofs.GridMaps
 import Deepali.Proofs.Rounding
 import Deepali.Proofs.Examples
+import Deepali.Proofs.FlowAffine
 import Mathlib.Tactic.Linarith
 import Mathlib.Tactic.NormNum
 import Mathlib.Data.Rat.Floor
@@ -187,6 +188,40 @@ theorem C01_coords_range (n : Nat) (hn : 2 ≤ n) (ac : Bool) (k : Nat) (hk : k 
     · have : 1 - (2 / ((n:ℚ) - 1) * k - 1) = 2 * ((n - 1) - k) / (n - 1) := by field_simp; ring
       have : 0 ≤ 2 * (((n:ℚ) - 1) - k) / (n - 1) := by apply div_nonneg <;> linarith
       linarith
+
+/-- un-normalising the k-th lattice coordinate gives back `k`, for every `n ≥ 1` (the code
+    special-cases `n = 1`) and both conventions. -/
+theorem unnormalize_coordAt_all (n : Nat) (h1 : 1 ≤ n) (ac : Bool) (k : Int) (hk : 0 ≤ k ∧ k < (n : Int)) :
+    unnormalize ac ((n : Nat) : K) (coordAt n ac ((k : Int) : K)) = ((k : Int) : K) := by
+  by_cases h2 : 2 ≤ n
+  · exact unnormalize_coordAt n h2 ac _
+  · have hn : n = 1 := by omega
+    subst hn
+    have hk0 : k = 0 := by omega
+    subst hk0
+    cases ac <;> simp [unnormalize, coordAt]
+
+/-- **sampling an image at its own lattice with the matching `align_corners` flag returns the image
+    unchanged** (bilinear, either padding mode, any dimension, every size ≥ 1 per axis). -/
+theorem C01_sample_identity (ac : Bool) (pad : Padding) (n : Fin d → Nat) (h1 : ∀ i, 1 ≤ n i)
+    (img : (Fin d → Int) → K) (idx : Fin d → Int) (hb : InBox n idx) :
+    gridSampleLin ac pad n img (latticePoint ac n idx) = img idx := by
+  have hx : (fun i => unnormalize ac ((n i : Nat) : K) ((latticePoint ac n idx : Vec d K) i))
+      = fun i => ((idx i : Int) : K) := by
+    funext i; simp only [latticePoint]; exact unnormalize_coordAt_all (n i) (h1 i) ac (idx i) (hb i)
+  have hcl : (fun i => clampCoord (n i) (unnormalize ac ((n i : Nat) : K) ((latticePoint ac n idx : Vec d K) i)))
+      = fun i => ((idx i : Int) : K) := by
+    funext i
+    have e : unnormalize ac ((n i : Nat) : K) ((latticePoint ac n idx : Vec d K) i) = ((idx i : Int) : K) :=
+      congrFun hx i
+    rw [e]
+    have h0 : (0 : K) ≤ ((idx i : Int) : K) := by exact_mod_cast (hb i).1
+    have hlt : ((idx i : Int) : K) + 1 ≤ ((n i : Int) : K) := by exact_mod_cast Int.add_one_le_of_lt (hb i).2
+    push_cast at hlt
+    exact clampCoord_inside _ _ h0 (by linarith)
+  cases pad <;> simp only [gridSampleLin, hx, hcl] <;> rw [interpLin_at_index] <;>
+    simp only [extZero, Nat.cast_zero] <;>
+    rw [if_pos (show ∀ i, 0 ≤ idx i ∧ idx i < (n i : Int) from hb)]
 
 /-! ### non-vacuity: a concrete rotated anisotropic grid meets every hypothesis used above -/
 
